@@ -27,6 +27,7 @@ class Log(object):
         self.indexname = "MAIN"
         self.actor = threading.local()
         self.shared = False        # True: several processes append to self.path
+        self.opcount = 0           # storage operations attempted so far (gate calls)
 
     @contextlib.contextmanager
     def atomic(self):
@@ -59,16 +60,13 @@ class Log(object):
         m = re.match(r"^_%s_([0-9]+)\.toc$" % ix, name)
         if m:
             return "toc:%d" % int(m.group(1))
-        m = re.match(r"^_%s_([0-9]+)\.toc\." % ix, name)
+        m = re.match(r"^_%s_([0-9]+)\.toc\.(.+)$" % ix, name)
         if m:
-            return "tmptoc:%d" % int(m.group(1))
+            return "tmptoc:%d:%s" % (int(m.group(1)), m.group(2))
         m = re.match(r"^(%s_[0-9a-z]+)\.([A-Za-z0-9_.]+)$" % ix, name)
         if m and not name.endswith("LOCK"):
-            sid = m.group(1)
-            with self.mutex:
-                if sid not in self.segids:
-                    self.segids[sid] = "s%d" % (len(self.segids) + 1)
-            return "seg:%s:%s" % (self.segids[sid], m.group(2))
+            # the real (random) segment id: stable across processes sharing one log
+            return "seg:%s:%s" % (m.group(1)[len(ix) + 1:], m.group(2))
         if name.endswith("LOCK"):
             return "lock"
         if name.endswith(".tmp"):
@@ -78,7 +76,7 @@ class Log(object):
     def emit(self, ev, **kw):
         with self.mutex:
             self.seq += 1
-            e = {"seq": self.seq, "proc": self.who(), "ev": ev}
+            e = {"seq": self.seq, "proc": self.who(), "ev": ev, "opn": self.opcount}
             e.update(kw)
             self.events.append(e)
             if self.path:
@@ -97,6 +95,7 @@ class Log(object):
         return out
 
     def before(self, op, name):
+        self.opcount += 1
         g = self.gate
         if g is not None:
             g(op, name)
@@ -135,6 +134,18 @@ class _FileProxy(object):
         self.close()
 
 
+def _default_blocking(lk):
+    """Does lk.acquire() without arguments block?  (threading.Lock: yes; FileLock: no)"""
+    import inspect
+    try:
+        p = inspect.signature(lk.acquire).parameters.get("blocking")
+        if p is not None and p.default is not inspect.Parameter.empty:
+            return bool(p.default)
+    except (TypeError, ValueError):
+        pass
+    return type(lk).__module__ in ("_thread", "threading")
+
+
 class WouldBlock(Exception):
     pass
 
@@ -147,7 +158,7 @@ class _LockProxy(object):
     def acquire(self, *args, **kw):
         self._log.before("lock", "lock")
         # would the underlying acquire() block with these arguments?
-        native_default = not hasattr(self._lk, "filename")      # threading.Lock blocks by default
+        native_default = _default_blocking(self._lk)
         blocking = args[0] if args else kw.get("blocking", native_default)
         with self._log.atomic():
             r = self._lk.acquire(False)        # the attempt itself never blocks inside the atomic step
